@@ -3,7 +3,7 @@
    targets_iter and validate. *)
 From ToughV Require Import Model.Base Model.Sig Model.Glob.
 
-Record tinfo := { ti_len : N; ti_digest : N }.
+Record tinfo := { ti_len : N; ti_digest : N; ti_hex : bytes }.
 
 (* what a delegating role says about a delegated role *)
 Record dhdr := { dh_name : bytes; dh_keyids : list N; dh_threshold : N; dh_paths : pathset }.
@@ -93,7 +93,7 @@ Fixpoint targets_of_tree (fuel : nat) (t : tree) : targets :=
   | S f =>
       Targets (t_N (t_nth t 0)) (Z_of_tree (t_nth t 1))
               (map (fun e => (tname_of_tree (t_nth e 0),
-                              {| ti_len := t_N (t_nth e 1); ti_digest := t_N (t_nth e 2) |}))
+                              {| ti_len := t_N (t_nth e 1); ti_digest := t_N (t_nth e 2); ti_hex := t_bytes (t_nth e 3) |}))
                    (t_list (t_nth t 2)))
               (t_bool (t_nth t 3)) (t_Ns (t_nth t 4))
               (map (fun r => (dhdr_of_tree (t_nth r 0),
